@@ -432,7 +432,8 @@ impl CodecParams {
             gzip_comment: name(rng),
             gzip_extra: if rng.chance(1, 4) { let n = rng.usize(1, 20); Some(rng.bytes(n)) } else { None },
             brotli_quality: rng.range(1, 9) as u32,
-            brotli_lgwin: rng.range(16, 24) as u32,
+            // large windows make every decode allocate and clear a ring buffer of that size: mostly small ones
+            brotli_lgwin: if rng.chance(1, 40) { rng.range(21, 24) as u32 } else { rng.range(16, 20) as u32 },
             zstd_level: *rng.pick(&[1, 3, 9, 19]),
             zstd_checksum: rng.chance(1, 2),
             zstd_contentsize: rng.chance(1, 2),
